@@ -1,13 +1,129 @@
 /-
 Props/C16.lean — property theorems for C16 (static inspector).
+
+For the repaired runtime (`LibCfg.fixed`) every acceptance relation the driver applies to the StaticInspector
+model (`Driver/LibOps.lean staticOp*`) holds for all operands:
+  `cmp_correct`     Compare      staticCmpAccepts     (no hypothesis)
+  `deq_correct`     DeepEqual    staticDeqAccepts     (no hypothesis; both argument orders)
+  `deq_symmetric`, `deq_total`   symmetry and "true or false, never panic / divergence" for ALL operands,
+                                 typed-nil pointers included (more than the relation asks)
+  `lc_correct`      Length/Cap   staticLcAccepts      (hypothesis `textSrcTyped`, implied by `Src.wt`)
+  `copy_correct`    Copy         staticCopyAccepts    (no hypothesis)
+  `copyTo_correct`  CopyTo       staticCopyToAccepts  (hypothesis `dformOK`: the destination form token is v / p / pn)
+  `reset_correct`   Reset        staticResetAccepts   (no hypothesis)
+Get has no model function: the driver's model of Get is the constant observation "same1".
+The model of the current tree is rejected on `static-deq-asymmetric`, `static-deq-diverges`,
+`static-reset-text-lost` (`repo_not_correct_*`).
 -/
-import InspectorModel.Lib.Static
-import InspectorModel.Spec.StaticSpec
+import InspectorModel.Proofs.C16
 namespace Inspector.C16
 
 /-- An operand of any other type compares as `false`. -/
 theorem cmp_foreign (c : LibCfg) (s : Src) (op : Op) (r : Seg) (h : s.kind = .foreign) :
     staticCmp c s op r = .set false := by
   simp [staticCmp, h]
+
+/-- Compare equals the native comparison with the operand parsed for the kind. -/
+theorem cmp_correct (s : Src) (op : Op) (right : Seg) :
+    staticCmpAccepts s op right (staticCmp LibCfg.fixed s op right) = true :=
+  staticCmp_correct s op right
+
+/-- DeepEqual, as the driver judges it (both argument orders observed): same answer in both orders, no
+abort, false for an operand of any other type, within one family true exactly for equal values. -/
+theorem deq_correct (l r : Src) :
+    staticDeqAccepts l r (staticDeq LibCfg.fixed l r) (staticDeq LibCfg.fixed r l) = true :=
+  staticDeq_correct l r
+
+/-- DeepEqual gives the same answer in both argument orders — all operands, typed-nil pointers included. -/
+theorem deq_symmetric (l r : Src) : staticDeq LibCfg.fixed l r = staticDeq LibCfg.fixed r l :=
+  staticDeq_symm l r
+
+/-- DeepEqual answers true or false — it never diverges and never panics, for all operands. -/
+theorem deq_total (l r : Src) : staticDeq LibCfg.fixed l r = .t ∨ staticDeq LibCfg.fixed l r = .f :=
+  staticDeq_tf l r
+
+theorem deq_never_diverges (l r : Src) : staticDeq LibCfg.fixed l r ≠ .diverge := by
+  rcases staticDeq_tf l r with h | h <;> simp [h]
+
+/-- Within one family, DeepEqual is true exactly for equal values (floats: within the tolerance; text: strings
+and byte slices interchangeable by content). -/
+theorem deq_same_family (l r : Src) (b : Bool) (hl : l.v.isNilPtr = false) (hr : r.v.isNilPtr = false)
+    (h : staticSameFamilyEq l r = some b) :
+    staticDeq LibCfg.fixed l r = if b then .t else .f := by
+  rw [staticDeq_nf l r hl hr]
+  exact deqNF_sameFamily l r b h
+
+/-- Length / Capacity. -/
+theorem lc_correct (isCap : Bool) (s : Src) (hs : textSrcTyped s = true) :
+    staticLcAccepts isCap s (staticLc LibCfg.fixed isCap s) = true :=
+  staticLc_correct isCap s hs
+
+theorem lc_correct_of_wt (isCap : Bool) (s : Src) (hs : s.wt = true) :
+    staticLcAccepts isCap s (staticLc LibCfg.fixed isCap s) = true :=
+  staticLc_correct isCap s (textSrcTyped_of_wt s hs)
+
+/-- Copy yields an equal value of the same kind sharing no bytes with the original. -/
+theorem copy_correct (s : Src) : staticCopyAccepts s (sobsOf (staticCopy LibCfg.fixed s)) = true :=
+  staticCopy_correct s
+
+/-- CopyTo, for every destination kind, destination token `dk` and destination form v / p / pn. -/
+theorem copyTo_correct (s : Src) (dkind : DynKind) (dk dform : String) (hd : dformOK dform = true) :
+    staticCopyToAccepts s dkind dform (staticCopyToObs LibCfg.fixed s dkind dk dform) = true :=
+  staticCopyTo_correct s dkind dk dform hd
+
+/-- Reset through a pointer zeroes the target. -/
+theorem reset_correct (s : Src) : staticResetAccepts s (staticResetObs LibCfg.fixed s) = true :=
+  staticReset_correct s
+
+section NonVacuity
+def intS (i : Int) : Src := { kind := .int, v := .int i }
+def f64S (fx : Int) : Src := { kind := .float64, v := .float fx }
+def strS (t : String) (isPtr : Bool := false) : Src := { kind := .string, isPtr := isPtr, v := .str (strBytes t) }
+def bytesS (t : String) : Src := { kind := .bytes, v := .bytes false (strBytes t) 8 }
+
+example : (strS "ab").wt = true ∧ textSrcTyped (strS "ab") = true ∧ dformOK "p" = true := by decide
+/-- 1 == 1.0 in both orders, 1 ≠ 1.5 in both orders, "ab" == []byte("ab"). -/
+example : staticDeq LibCfg.fixed (intS 1) (f64S 1048576) = .t ∧ staticDeq LibCfg.fixed (f64S 1048576) (intS 1) = .t ∧
+    staticDeq LibCfg.fixed (intS 1) (f64S 1572864) = .f ∧ staticDeq LibCfg.fixed (f64S 1572864) (intS 1) = .f ∧
+    staticDeq LibCfg.fixed (strS "ab") (bytesS "ab") = .t ∧ staticDeq LibCfg.fixed (bytesS "ab") (strS "ab") = .t := by decide
+example : staticCmp LibCfg.fixed (intS 5) 3 { text := strBytes "4", pi := some 4 } = .set true := by decide
+example : staticLc LibCfg.fixed true (bytesS "ab") = .val 8 ∧ staticLc LibCfg.fixed false (strS "ab") = .val 2 := by decide
+
+/-- Known finding `static-deq-asymmetric`: DeepEqual(1, 1.5) is true (the float is truncated), DeepEqual(1.5, 1) false. -/
+theorem repo_not_correct_deq_asymmetric :
+    staticDeqAccepts (intS 1) (f64S 1572864)
+      (staticDeq LibCfg.repo (intS 1) (f64S 1572864)) (staticDeq LibCfg.repo (f64S 1572864) (intS 1)) = false := by
+  decide
+
+/-- Known finding `static-deq-diverges`: a string against an int recurses forever. -/
+theorem repo_not_correct_deq_diverges :
+    staticDeqAccepts (strS "a") (intS 1)
+      (staticDeq LibCfg.repo (strS "a") (intS 1)) (staticDeq LibCfg.repo (intS 1) (strS "a")) = false := by
+  decide
+
+/-- Known finding `static-reset-text-lost`: Reset of a `*string` assigns to a local, the target keeps "ab". -/
+theorem repo_not_correct_reset_text_lost :
+    staticResetAccepts (strS "ab" true) (staticResetObs LibCfg.repo (strS "ab" true)) = false := by
+  decide
+
+/-- The repaired runtime on the same inputs (instances of the theorems above). -/
+example : staticDeqAccepts (intS 1) (f64S 1572864)
+    (staticDeq LibCfg.fixed (intS 1) (f64S 1572864)) (staticDeq LibCfg.fixed (f64S 1572864) (intS 1)) = true :=
+  deq_correct _ _
+example : staticResetAccepts (strS "ab" true) (staticResetObs LibCfg.fixed (strS "ab" true)) = true := reset_correct _
+
+/-- Why `lc_correct` has a hypothesis: an operand tagged `[]byte` that carries a string value (no Go value is
+like that) — the relation reads it as "not a byte slice, length 0", the model takes the length of the text. -/
+theorem lc_untyped_counterexample :
+    let s : Src := { kind := .bytes, v := .str (strBytes "ab") }
+    textSrcTyped s = false ∧ s.wt = false ∧ staticLcAccepts false s (staticLc LibCfg.fixed false s) = false := by
+  decide
+
+/-- Why `copyTo_correct` has a hypothesis: for a destination-form token other than v / p / pn the driver's
+reading of the token as (isPointer, isNil) and the relation's reading disagree. -/
+theorem copyTo_bad_form_counterexample :
+    staticCopyToAccepts (intS 1) .int "x" (staticCopyToObs LibCfg.fixed (intS 1) .int "int" "x") = false := by
+  decide
+end NonVacuity
 
 end Inspector.C16
